@@ -116,12 +116,15 @@ def totalActiveStakeOf (cfg : Config) (st : State) (epoch : Nat) : Nat :=
 def indexOfPubkey (validators : List Validator) (pk : Bytes) : Option Nat :=
   validators.findIdx? fun v => decide (v.pubkey = pk)
 
+/-- the validator index of a sync-committee member (the committee holds pubkeys) -/
+def memberIndex (validators : List Validator) (pk : Bytes) : SM Nat :=
+  match indexOfPubkey validators pk with
+  | some i => pure i
+  | none => invalid "sync committee member is not a validator"
+
 /-- the indexed form of one of the state's sync committees -/
 def syncOf (validators : List Validator) (sc : SyncCommittee) : SM SyncC := do
-  let indices ← sc.pubkeys.mapM fun pk =>
-    match indexOfPubkey validators pk with
-    | some i => pure i
-    | none => invalid "sync committee member is not a validator"
+  let indices ← sc.pubkeys.mapM (memberIndex validators)
   pure ⟨indices, sc.pubkeys⟩
 
 def syncOfOpt (validators : List Validator) : Option SyncCommittee → SM (Option SyncC)
